@@ -32,7 +32,8 @@ PROPS = {
         explanation='node tests of the evaluator: eval_node_test answers every name test with false for a node that is not of the principal node type of the axis and `*` with true for one that is, text() with text / CDATA / entity-reference nodes, comment() and processing-instruction() by node type, node() always, and processing-instruction(\'t\') by node type and target, for every node; the axes (unit c05_axes, over uninterpreted parent / children / sibling-index functions tied together by a tree well-formedness precondition): ancestor, ancestor-or-self, child, descendant, descendant-or-self, following-sibling, preceding-sibling, following and preceding return exactly the node list XPath 1.0 section 2.2 defines, in axis order (following: the subtrees of the following siblings, then whatever follows the parent; preceding: the reversed subtrees of the preceding siblings, then whatever precedes the parent, ancestors excluded); the core functions count, string, concat, starts-with, contains, substring-before, substring-after, boolean, not, true, false, number, floor, ceiling, round return what XPath 1.0 section 4 prescribes in terms of the string / number / boolean value of their arguments (the conversions themselves are uninterpreted here; scalars: C09)',
     ),
     'C03': dict(
-        standin_ops=['info.attr_value', 'info.build_print'],
+        standin_ops=['info.attr_value', 'info.build_print', 'info.build_print_corpus'],
+        quick_grids=['info.build_print_corpus'],
         verus_units=['c03_entity', 'c03_doctype'],
         level='proof',
         trusted_base=TRUSTED_VERUS,
@@ -166,7 +167,8 @@ PROPS = {
         explanation='character-reference half of C02: info::char_from_char10/16 return Ok(c) only when the parsed number is c and c matches production [2] Char (WFC Legal Character), reject unparsable digits, accept every legal one; verified modularly against the contract of xmlchar::is_char, which is re-verified in the same unit',
     ),
     'C04': dict(
-        standin_ops=['info.escape', 'info.roundtrip'],
+        standin_ops=['info.escape', 'info.roundtrip', 'info.roundtrip_corpus'],
+        quick_grids=['info.roundtrip', 'info.roundtrip_corpus'],
         verus_units=['info_helpers'],
         level='proof',
         trusted_base=TRUSTED_VERUS,
@@ -264,7 +266,7 @@ MANIFEST_TEXT = {
         technique='contract-based deductive verification (Verus postconditions on extracted real functions, callee is_char under its own contract)',
         design_ref='DESIGN.md §4 C02'),
     'C04': dict(
-        level_text='Proof (Verus, all strings without both quote characters) that info::escape returns the value between two copies of a quote character that does not occur in it. Quote-selection clause of C04 only.',
+        level_text='Proof (Verus, all strings without both quote characters) that info::escape returns the value between two copies of a quote character that does not occur in it. Quote-selection clause of C04 only. Bounded and labelled so, both tiers: info.roundtrip (40 documents) and info.roundtrip_corpus (10 137 well-formed token-level mutants of 23 documents, tools/gen_illformed.py): print, parse, print is a fixpoint and the re-parsed document equals the first.',
         level_note='Trusted: Verus+Z3, extractor, two std shims (contains, format!). Not decided: Display impls, re-parse, fixpoint.',
         technique='contract-based deductive verification (Verus postcondition on the extracted real function)',
         design_ref='DESIGN.md §4 C04'),
